@@ -11,11 +11,16 @@ RULE = ("threshold: every keep/reject pattern of <=6 (quick: <=5) strictly incre
         "support intervals. Oracle = the property (kept set, new support contains kept / excludes rejected, inside the old "
         "support, midpoint boundaries, restrict(original, new support) == result); kernel outputs compared with the Lean "
         "models of jitthreshold / jitremove_nan. distinct = distinct (timestamps, support, pattern, method)")
-PROVED = ("threshold_multi_epoch_regression / threshold_last_epoch_regression (inputs of the repaired findings), threshold_lone_sample_witness "
-          "(the open finding), C15 threshold_safe (no out-of-range read for ANY series inside a canonical support); removeNan_cover (dropna: sample i is kept iff it lies in one of the returned runs [start k, end k] - every kept sample "
-          "inside the new support, no dropped one; any mask), removeNan_runs (starts/ends are kept samples, equally many); "
-          "")
-NOT_PROVED = ("threshold support theorem for single-interval supports, dropna +1us singleton handling: oracle + correspondence only")
+PROVED = ("threshold_correct (jitthreshold, kernel level, times doubled): for a strictly increasing series inside a canonical support - any "
+          "length >= 1, any keep/reject pattern, one or many support intervals - the kernel returns, with as many starts as ends; sample i "
+          "is kept iff 2 t[i] lies in a returned interval (every kept sample inside the new support, no rejected one); every returned "
+          "interval lies inside ONE interval of the old support (no extension, no bridging) - from threshold_cover / threshold_inside "
+          "(refinement of the position-indexed scan to a push-based reference + loop invariants) and C15 threshold_safe; regression "
+          "theorems for the repaired findings, threshold_lone_sample_witness (the open finding); removeNan_cover (dropna: sample i is "
+          "kept iff it lies in one of the returned runs; any mask), removeNan_runs")
+NOT_PROVED = ("that boundaries between kept and rejected neighbours are MIDPOINTS is visible in the model text and decided by the oracle; "
+              "the IntervalSet constructor applied to the kernel output (drops the zero-length interval of a lone sample: the open "
+              "finding) and dropna's +1us singleton widening: oracle + correspondence only")
 ASSUMPTIONS = ["timestamps strictly increasing by at least 2 us (the +1us singleton widening of dropna assumes samples farther apart than 1us)"]
 METHODS = {"above": lambda d, t: d > t, "below": lambda d, t: d < t, "aboveequal": lambda d, t: d >= t, "belowequal": lambda d, t: d <= t}
 
